@@ -489,6 +489,7 @@ class Inputs:
             else:
                 self.full = {o: sparse.csr_array(Q @ v @ Q.conj().T) for o, v in self.full.items()}
                 self.vecs = tuple(np.ascontiguousarray(Q[:, c]) for c in cols)  # the last block stays implicit
+                self.aux = np.ascontiguousarray(Q[:, int(self.offs[nb - 1]):int(self.offs[nb - 1]) + 1])  # one known vector of the implicit block
         if w["fmt"] == "scalar_vecs":
             Q, _ = np.linalg.qr(rg.normal(size=(N, N)) + 1j * rg.normal(size=(N, N)))
             if w["domain"] == "wrapped":
@@ -794,6 +795,10 @@ class Sim:
         if self.w["fmt"] == "implicit" and spec.get("kpm"):
             kw["direct_solver"] = False
             kw["solver_options"] = {"atol": 1e-3}
+            if spec.get("kpm_aux") and getattr(self.inp, "aux", None) is not None:
+                kw["solver_options"]["auxiliary_vectors"] = self.inp.aux
+        elif self.w["fmt"] == "implicit" and spec.get("eig_atol"):
+            kw["solver_options"] = {"eigenvalue_atol": 1e-10}
         if spec.get("solver") in ("custom", "legacy"):
             # one solver object of the caller serves every computation (and every re-definition) that uses it
             key = spec["solver"]
@@ -1694,6 +1699,8 @@ class GraphProp:
                 elif spec["fd"]:
                     spec["fd"] = [b for b in spec["fd"] if b < nb - 1] or None
                 spec["kpm"] = bool(spec["herm"] and herm and r.random() < 0.3)
+                spec["kpm_aux"] = r.random() < 0.5
+                spec["eig_atol"] = r.random() < 0.3
                 if spec["kpm"]:
                     spec["fd"] = None if isinstance(spec["fd"], dict) else spec["fd"]
         if tier == "thorough" and domain in ("dense", "sparse") and fmt != "implicit" and r.random() < 0.25:
